@@ -52,7 +52,8 @@ ASSUMPTIONS = [
     "the extra spellings int(s, 16) accepts (sign, 0x, underscores, blanks, non-ASCII digits) are outside the model",
     "keys containing '/' or equal to '.' (h5py path semantics), integer/bool keys for `in`/`[]`/`[]=` on the section, "
     "top-level bytes / set / dict / range / iterator inputs, tuples assigned through section[key] = (...), lone "
-    "surrogates in text, NaN payloads of float16/float32 *scalars* (quieted by the C cast) are outside the model",
+    "surrogates in text, text ending in NUL characters (dropped by numpy's str conversion; open known finding "
+    "C10-text-trailing-nul-dropped, oracle only), NaN payloads of float16/float32 *scalars* (quieted by the C cast) are outside the model",
     "floating point values are compared as IEEE bit patterns; np.floatN scalars are represented by their exact "
     "widening to double",
     "a refusal with ValueError (value of a class get_dtype does not know: None, bytes, complex, nested list) is "
@@ -1032,6 +1033,22 @@ def _expected_cell(pv):
     return {"s": list(pv["v"])}
 
 
+def _embedded_nul(cp):
+    """a NUL followed by something else (a text that merely *ends* in NULs is an ordinary value)"""
+    t = list(cp)
+    while t and t[-1] == 0:
+        t.pop()
+    return 0 in t
+
+
+def _trailing_nul(op):
+    inp = op[2] if len(op) > 2 else None
+    if not isinstance(inp, dict):
+        return False
+    vals = [inp["scalar"]] if "scalar" in inp else inp.get("list", [])
+    return any(v.get("c") in ("str", "npStr") and v.get("v") and v["v"][-1] == 0 for v in vals)
+
+
 def classify(inp):
     """('valid', kind, cells) homogeneous candidate of one of the four types, storable;
     ('mixed', kinds) all elements of the four types, more than one type;
@@ -1052,8 +1069,8 @@ def classify(inp):
         k = kinds[0]
         if k == "int" and any(not (INT64_MIN <= int(v["v"]) <= INT64_MAX) for v in vals):
             return None
-        if k == "str" and any(0 in v["v"] for v in vals):
-            return None
+        if k == "str" and any(_embedded_nul(v["v"]) for v in vals):
+            return None                      # h5py refuses an embedded NUL (ValueError): not a type matter
         return ("valid", k, [_expected_cell(v) for v in vals])
     if "nd" in inp:
         nd = inp["nd"]
@@ -1277,8 +1294,13 @@ NUL_HISTORY = [["create", cps("t"), {"list": [jstr("x"), jstr("y")]}],
                ["set", {"n": cps("t")}, {"list": [jstr("a\x00b")]}]]
 
 
+TRAILING_NUL_HISTORY = [["create", cps("t"), {"list": [jstr("x")]}],
+                        ["set", {"n": cps("t")}, {"list": [jstr("a\x00")]}],
+                        ["extend", {"n": cps("t")}, {"list": [jstr("b\x00\x00")]}]]
+
 ORACLE_FIXED = [
     ("nul-text", NUL_HISTORY),
+    ("trailing-nul-text", TRAILING_NUL_HISTORY),      # outside the model (Input.WF): oracle only
     # repaired in /repo (999983a, 563d8d3): overflow used to truncate / zero-pad, failed creates left a property
     ("overflow-after-resize", [["create", cps("i"), {"list": [jint(1), jint(2), jint(3)]}],
                                ["set", {"n": cps("i")}, {"list": [jint(5), jint(2 ** 63)]}],
@@ -1350,19 +1372,26 @@ def matches_known(entry, failure):
     section[key] = ... of an existing text property is refused by h5py with ValueError *after* the dataset was
     resized.  Only that failure on exactly such an operation matches; the UUID-shaped-name defect (D6) and the
     create/overflow defects are repaired in /repo and their histories stay in the fixed lists."""
+    try:
+        op = failure.input["ops"][-1]
+    except Exception:
+        return False
     if entry.get("class") == "nul-text-refused-after-resize":
-        try:
-            op = failure.input["ops"][-1]
-        except Exception:
-            return False
         return (failure.what == "a refused call changed stored values" and failure.observed == "ValueError"
                 and op[0] in ("set", "extend", "setitem") and _has_nul_text(op))
+    if entry.get("class") == "text-trailing-nul-dropped":
+        # np.array(vals, dtype=str) drops trailing NULs: only read-back failures of a store whose text ends in NUL
+        return (op[0] in ("create", "set", "extend", "setitem") and _trailing_nul(op) and failure.what in (
+            "reading does not return the values last stored", "extend did not append after the existing values",
+            "created property does not hold the given values with their type"))
     return False
 
 
 def reproduces(ctx, entry):
     if entry.get("class") == "nul-text-refused-after-resize":
         return any(matches_known(entry, f) for f in check_history(ctx, NUL_HISTORY, 999999, "known"))
+    if entry.get("class") == "text-trailing-nul-dropped":
+        return any(matches_known(entry, f) for f in check_history(ctx, TRAILING_NUL_HISTORY, 999997, "known"))
     return True
 
 
